@@ -1090,11 +1090,11 @@ impl<'a> Builder<'a> {
             }
             Topo::Take(n, c) => {
                 let src = self.build(c);
-                Arc::new(callbag::take(*n as usize)(src))
+                Arc::new(callbag::take(count_param(*n))(src))
             }
             Topo::Skip(n, c) => {
                 let src = self.build(c);
-                Arc::new(callbag::skip(*n as usize)(src))
+                Arc::new(callbag::skip(count_param(*n))(src))
             }
             Topo::Merge(ts) => {
                 let m = self.members(ts);
